@@ -222,7 +222,7 @@ def run(tier, seed):
     _api()
     procs = 16
     res_adj = F.pmap(_w_adjacency, [(i, min(i + 4, 118)) for i in range(0, 118, 4)], procs)
-    nchunks, per = (64, 700) if tier == "quick" else (640, 4000)
+    nchunks, per = (64, 700) if tier == "quick" else (640, 3000)
     res_gen = F.pmap(_w_grammar, [(seed, c, per) for c in range(nchunks)], procs)
     res_rej = F.pmap(_w_reject, [(k, 32) for k in range(32)], procs)
     return {"standins": [
